@@ -169,6 +169,11 @@ def execute(sub, case):
     except BaseException as e:  # noqa
         tb = traceback.extract_tb(e.__traceback__)
         wf = [f for f in tb if _is_whoosh_frame(f)]
+        if not wf and isinstance(e, ValueError) and "__len__() should return >= 0" in str(e):
+            # len() of a whoosh object (Results) came out negative: the exception is raised by the builtin in the
+            # harness frame, but it is the library's answer that is wrong
+            out.fail("crash:negative_len", "".join(traceback.format_exception(type(e), e, e.__traceback__))[-1500:])
+            return out
         if wf:
             f = wf[-1]
             out.fail("crash:%s@%s:%s" % (type(e).__name__, os.path.basename(f.filename), f.name),
